@@ -184,6 +184,14 @@ def iv_pair(acc, mods, kind, fa, fb, z=None, native=True):
         acc.mismatch("interval", f"{kind}/negated", case, nc, {k: -v for k, v in comp.items()})
     if ac != comp:
         acc.mismatch("interval", f"{kind}/abs-of-reversed", case, ac, comp)
+    # ... and in the other order: abs() of the forward interval first, THEN its negation, equality and hash
+    try:
+        abs(iv), abs(abs(iv)), abs(rv)
+        after = [iv_components(-iv), iv_components(-rv), iv == (b - a), hash(iv) == hash(b - a), obs.td_us(-iv) == -obs.td_us(iv)]
+    except Exception as e:  # noqa: BLE001
+        after = f"raises {type(e).__name__}"
+    if after != [{k: -v for k, v in comp.items()}, comp, True, True, True]:
+        acc.mismatch("interval", f"{kind}/negated-after-abs", case, after, [{k: -v for k, v in comp.items()}, comp, True, True, True])
     again = (iv_components(iv), iv_components(rv))
     if again != (comp, rc):
         acc.mismatch("interval", f"{kind}/components-changed-after-use", case, list(again), [comp, rc])
